@@ -17,16 +17,58 @@ pub fn check(out: &mut Out, st: &Step) {
     let (a, b) = (sections(pre), sections(post));
     let (ma, mb) = (misc(pre), misc(post));
     if ret == "I" {
-        let same = a[0] == b[0] && a[1] == b[1] && a[2] == b[2] && a[3] == b[3] && a[4] == b[4] && ma[2] == mb[2] && st.dict_pre == st.dict_post;
-        if !same {
-            out.oracle_fail("C06", "new", &format!("ignored key changed persistent state: {}", st.hist()));
+        // everything the snapshot holds, section by section: [0] the WHOLE state section (state kind; for an open
+        // list the page number, the action, the selector kind and its range / sub-menu / symbol), [1] composition
+        // editor, [2] phonetic buffer, [3] engine + symbol tables, [4] the 14 options, the chosen alternative, and
+        // the dictionaries.  Not compared (see MANIFEST): `last` (it is the answer itself), the per-key outputs
+        // commit / notice (reset by every key: they must be EMPTY after an ignored key, checked below), the
+        // pending-flush level `dirty` and the estimator clock `time` (no getter shows either).
+        let names = ["state / open list (page, action, selector)", "composition editor", "phonetic buffer", "engine / symbol tables", "options"];
+        let mut diff: Vec<&str> = (0..5).filter(|i| a[*i] != b[*i]).map(|i| names[i]).collect();
+        if ma[2] != mb[2] {
+            diff.push("chosen alternative");
+        }
+        if st.dict_pre != st.dict_post {
+            diff.push("dictionary");
+        }
+        if !diff.is_empty() {
+            out.oracle_fail("C06", "new", &format!("ignored key changed persistent state ({}): {}", diff.join(", "), st.hist()));
         }
         if mb[3] != "x" {
             out.oracle_fail("C06", "new", &format!("commit string {} available after an ignored key: {}", mb[3], st.hist()));
         }
+        if mb[4] != "x" {
+            out.oracle_fail("C06", "new", &format!("notification {} shown after an ignored key: {}", mb[4], st.hist()));
+        }
+        // … and what the public getters answer: the candidate list (open or not, current page, number of pages,
+        // every choice, the choices from the current page on, page size), the displayed pre-edit text, its length
+        let cands = |c: Option<&CandView>| c.map(|c| (c.panicked, c.page_no, c.total_page, c.per, c.all.clone(), c.paginated.clone()));
+        let (ca, cb) = (cands(st.cand_pre), cands(st.cand_post));
+        if ca != cb {
+            let what = match (&ca, &cb) {
+                (Some(x), Some(y)) if x.1 != y.1 => format!("current page {} -> {}", x.1, y.1),
+                (Some(x), Some(y)) if x.2 != y.2 => format!("total pages {} -> {}", x.2, y.2),
+                (Some(x), Some(y)) if x.4 != y.4 => "the choices".to_string(),
+                (Some(x), Some(y)) if x.5 != y.5 => "the choices of the current page".to_string(),
+                (Some(_), None) => "the list was closed".to_string(),
+                (None, Some(_)) => "a list was opened".to_string(),
+                _ => "getter answers".to_string(),
+            };
+            out.oracle_fail("C06", "new", &format!("ignored key changed the candidate list ({}): {}", what, st.hist()));
+        }
+        if st.display_pre != st.display_post || st.len_pre != st.len_post {
+            out.oracle_fail("C06", "new", &format!("ignored key changed the displayed pre-edit text {:?} -> {:?}: {}", st.display_pre, st.display_post, st.hist()));
+        }
     }
-    if ret == "B" && a[1] != b[1] {
-        out.oracle_fail("C06", "new", &format!("bell changed the pre-edit or the cursor: {}", st.hist()));
+    if ret == "B" {
+        // pre-edit text and cursor: the composition-editor section (cursor, saved cursors, symbols, gaps, selections),
+        // the text as `display()` shows it and its length
+        if a[1] != b[1] {
+            out.oracle_fail("C06", "new", &format!("bell changed the pre-edit or the cursor: {}", st.hist()));
+        }
+        if st.display_pre != st.display_post || st.len_pre != st.len_post {
+            out.oracle_fail("C06", "new", &format!("bell changed the displayed pre-edit text {:?} -> {:?}: {}", st.display_pre, st.display_post, st.hist()));
+        }
     }
     // pass-through when nothing is being composed (state Entering; an open list / highlight is composing)
     if com_is_empty(pre) && syl_is_empty(pre) && is_idle_key(code) && ret != "I" {
